@@ -745,14 +745,28 @@ type staleDesc struct {
 	PlainOK   bool       `json:"unlocked_build_after_edit_ok"`
 	Plain     []opkg     `json:"unlocked_build_after_edit_installed,omitempty"`
 	LockError string     `json:"apko_lock_error,omitempty"`
+	LockSum   string     `json:"checksum_recorded_in_the_lock"`
+	NowSum    string     `json:"checksum_of_the_edited_configuration"`
 }
 
 func galStaleRuns(rs []staleRun) string {
 	it := make([]string, len(rs))
 	for i, r := range rs {
-		it[i] = fmt.Sprintf("(%s, %s, %s)", gal.Str(r.Spelling), gal.Bool(r.OK), galNV(r.Installed))
+		it[i] = fmt.Sprintf("(%s, %s, %s)", gal.Str(r.Given), gal.Bool(r.OK), galNV(r.Installed))
 	}
 	return gal.List(it)
+}
+
+// configChecksum: the deep checksum of the configuration that a lock file records (config.checksum)
+func configChecksum(path string) string {
+	var lj lockJSON
+	if b, err := os.ReadFile(path); err == nil {
+		_ = json.Unmarshal(b, &lj)
+	}
+	if lj.Config == nil {
+		return ""
+	}
+	return lj.Config.Checksum
 }
 
 func staleCase(w *gal.Writer, wd *world, newWorld []string, arch string) {
@@ -772,7 +786,7 @@ func staleCase(w *gal.Writer, wd *world, newWorld []string, arch string) {
 	// the lock is taken with the configuration named relative to the working directory
 	if out, err := runApko(work, env, "lock", "apko.yaml", "--output", "apko.lock.json", "--arch", strings.Join(sc.Archs, ",")); err != nil {
 		d.LockError = tail(out, 400)
-		w.Add(gal.Case{Term: "(CStale {| sl_locked := false; sl_listed := []; sl_plain_ok := false; sl_plain_installed := []; sl_fresh := []; sl_stale := [] |})",
+		w.Add(gal.Case{Term: "(CStale {| sl_locked := false; sl_lock_name := \"\"; sl_lock_sum := \"\"; sl_now_sum := \"\"; sl_listed := []; sl_plain_ok := false; sl_plain_installed := []; sl_fresh := []; sl_stale := [] |})",
 			Class: "stale-lock/lock-failed", Key: sc.Name + "/stale", Desc: d})
 		return
 	}
@@ -824,8 +838,13 @@ func staleCase(w *gal.Writer, wd *world, newWorld []string, arch string) {
 	}
 	plain := build("unlocked", "apko.yaml", false)
 	d.PlainOK, d.Plain = plain.OK, plain.Installed
-	term := fmt.Sprintf("(CStale {| sl_locked := true; sl_listed := %s; sl_plain_ok := %s; sl_plain_installed := %s; sl_fresh := %s; sl_stale := %s |})",
-		galNV(listed), gal.Bool(d.PlainOK), galNV(d.Plain), galStaleRuns(d.Fresh), galStaleRuns(d.Stale))
+	// the checksum the lock recorded, and the checksum of the configuration as it is now (what a fresh lock records)
+	lockSum := configChecksum(filepath.Join(work, "apko.lock.json"))
+	_, _ = runApko(work, env, "lock", "apko.yaml", "--output", "relock.json", "--arch", strings.Join(sc.Archs, ","))
+	nowSum := configChecksum(filepath.Join(work, "relock.json"))
+	d.LockSum, d.NowSum = lockSum, nowSum
+	term := fmt.Sprintf("(CStale {| sl_locked := true; sl_lock_name := %s; sl_lock_sum := %s; sl_now_sum := %s; sl_listed := %s; sl_plain_ok := %s; sl_plain_installed := %s; sl_fresh := %s; sl_stale := %s |})",
+		gal.Str(d.LockName), gal.Str(lockSum), gal.Str(nowSum), galNV(listed), gal.Bool(d.PlainOK), galNV(d.Plain), galStaleRuns(d.Fresh), galStaleRuns(d.Stale))
 	w.Add(gal.Case{Term: term, Class: "stale-lock/" + sc.Name, Key: sc.Name + "/stale", Desc: d})
 }
 
